@@ -209,18 +209,25 @@ void multisequence_partition(const RanSeqs& begin_seqs, const RanSeqs& end_seqs,
     {
         n /= 2;
 
+        diff_type lmax_seq = -1;
         const value_type* lmax = nullptr; // impossible to avoid the warning?
         for (diff_type i = 0; i < m; ++i)
         {
             if (a[i] > 0)
             {
                 if (!lmax)
+                {
                     lmax = &(begin_seqs[i].first[a[i] - 1]);
+                    lmax_seq = i;
+                }
                 else
                 {
                     // max, favor rear sequences
                     if (!comp(begin_seqs[i].first[a[i] - 1], *lmax))
+                    {
                         lmax = &(begin_seqs[i].first[a[i] - 1]);
+                        lmax_seq = i;
+                    }
                 }
             }
         }
@@ -228,8 +235,11 @@ void multisequence_partition(const RanSeqs& begin_seqs, const RanSeqs& end_seqs,
         for (diff_type i = 0; i < m; ++i)
         {
             diff_type middle = (b[i] + a[i]) / 2;
+            // compare with the left maximum in (value, sequence) order:
+            // equal elements are taken from lower-numbered sequences first
             if (lmax && middle < seqlen[i] &&
-                comp(begin_seqs[i].first[middle], *lmax))
+                lcomp(SamplePair(begin_seqs[i].first[middle], i),
+                      SamplePair(*lmax, lmax_seq)))
                 a[i] = std::min(a[i] + n + 1, seqlen[i]);
             else
                 b[i] -= n + 1;
